@@ -353,18 +353,24 @@ def jIsaObs : IsaObs → Json
   | .undef c => jerr "UndefElemError" [("elem", jchars c)] (Isa.IsaError.undefCap c).message
   | .other c => jerr c [] ""
 
-def isaObsEq (m : IsaObs) (i : IsaObs) (imsg : String) : Bool :=
+/-- K for `load_isa`. Same accept/reject bit; accepted: the dict as a set of items; rejected with the same kind of
+error: fields and message equal. A table holding *both* kinds of defect may be rejected with either (the property
+does not fix the order of the two independent checks — DESIGN §2): then the implementation's error must name a
+real culprit (the oracle's test) with the canonical message for its own fields. -/
+def isaObsEq (isa : List (List Char × List Char)) (caps : List (List Char)) (m : IsaObs) (i : IsaObs) (imsg : String) : Bool :=
   match m, i with
   | .ok a, .ok b => sortPairs a == sortPairs b
   | .dup o n, .dup o' n' => o == o' && n == n' && imsg == (Isa.IsaError.dupInstr o n).message
   | .undef c, .undef c' => c == c' && imsg == (Isa.IsaError.undefCap c).message
+  | .dup _ _, .undef c' => (checkC15Load isa caps i).isNone && imsg == (Isa.IsaError.undefCap c').message
+  | .undef _, .dup o' n' => (checkC15Load isa caps i).isNone && imsg == (Isa.IsaError.dupInstr o' n').message
   | _, _ => false
 
 /--
 `{"op":"isa","isa":[[mnemonic,cap],…],"caps":[…],
   "impl":{"ok":[[KEY,cap],…]} | {"err":{"class":"DupElemError","fields":{"old":s,"new":s},"message":s}}
                               | {"err":{"class":"UndefElemError","fields":{"elem":s},"message":s}}}`
-→ `{"model":…, "k":{"C15":b}, "o":{"C15":…}}`; K compares the dict as a set of items, errors by class, fields, message.
+→ `{"model":…, "k":{"C15":b}, "o":{"C15":…}}`; K: see `isaObsEq`.
 -/
 def opIsa (j : Json) : E Json := do
   let isa ← decPairs (← j.getObjVal? "isa")
@@ -375,7 +381,7 @@ def opIsa (j : Json) : E Json := do
   | none => return Json.mkObj base
   | some ij =>
     let (io, msg) ← decIsaObs ij
-    return Json.mkObj (base ++ verdict "C15" (isaObsEq m io msg) (checkC15Load isa caps io))
+    return Json.mkObj (base ++ verdict "C15" (isaObsEq isa caps m io msg) (checkC15Load isa caps io))
 
 /-- `{"op":"abilities","ports":[[cap…],…] (in-out ports then input ports),"impl":[cap…]}` → model (sorted), k (equal as sets), o -/
 def opAbilities (j : Json) : E Json := do
